@@ -45,12 +45,14 @@ pub struct Profile {
     pub safe_arrays: bool,
     /// weight (0..100) of planting an error-provoking card
     pub errors: usize,
+    /// weight (0..100) of statements calling typed / re-entering host functions
+    pub host: usize,
 }
 
 impl Profile {
     pub fn named(name: &str) -> Profile {
         let base = Profile { nfns: 3, max_depth: 3, stmts: 6, closures: 2, tables: 4, mixed_coercions: 2, while_decl: false,
-                             natives: true, many_globals: false, stdlib: 0, safe_arrays: true, errors: 0 };
+                             natives: true, many_globals: false, stdlib: 0, safe_arrays: true, errors: 0, host: 0 };
         match name {
             "basic" => Profile { nfns: 2, closures: 0, tables: 2, ..base },
             "calls" => Profile { nfns: 5, closures: 1, stmts: 5, ..base },
@@ -61,6 +63,7 @@ impl Profile {
             "globals" => Profile { many_globals: true, nfns: 2, ..base },
             "whiledecl" => Profile { while_decl: true, closures: 0, ..base },
             "arrays" => Profile { safe_arrays: false, tables: 8, ..base },
+            "host" => Profile { host: 35, nfns: 3, closures: 4, stmts: 7, ..base },
             "errors" => Profile { errors: 6, nfns: 3, closures: 3, ..base },
             "std" => Profile { stdlib: 8, tables: 6, closures: 3, ..base },
             _ => base,
@@ -364,7 +367,50 @@ impl<'a> Gen<'a> {
         }
     }
 
+    /// a call of a typed host function (arguments mostly convertible, sometimes not) or of a host
+    /// function that re-enters a script function / closure / native function value
+    fn host_stmt(&mut self, cx: &Ctx) -> Vec<C> {
+        let g = format!("g{}", self.rng.below(5));
+        let reg = typed_registry();
+        if self.w(6) {
+            let typed: Vec<&Native> = reg.iter().filter(|n| n.beh == "typed").collect();
+            let n = (*self.rng.pick(&typed)).clone();
+            let args: Vec<C> = n.types.iter().map(|ty| {
+                let wrong = self.rng.below(100) < 12;
+                let t = match *ty {
+                    "str" => if wrong { *self.rng.pick(&[Ty::Int, Ty::Nil, Ty::Tab, Ty::Real]) } else { Ty::Str },
+                    "table" => if wrong { *self.rng.pick(&[Ty::Int, Ty::Nil, Ty::Str]) } else { Ty::Tab },
+                    "nilable_i64" => *self.rng.pick(&[Ty::Nil, Ty::Int, Ty::Real, Ty::Str]),
+                    _ => self.any_ty(),
+                };
+                self.expr(cx, t, 1)
+            }).collect();
+            let c = if self.w(3) { dyncall(named("NativeFunction", &n.name, vec![]), args) } else { native(&n.name, args) };
+            return vec![setg(&g, c)];
+        }
+        // re-entry
+        let k = self.rng.below(3);
+        let f = match self.rng.below(5) {
+            0 if k == 1 => named("NativeFunction", *self.rng.pick(&["id1", "t_i", "t_v"]), vec![]),
+            1 if k == 1 => {
+                // a closure that re-enters again through the host
+                let p = self.fresh("p");
+                let inner = self.closure_lit(cx, 1, 1);
+                closure(&[&p], vec![card("Return", vec![native("call1", vec![inner, card("Add", vec![read(&p), int(1)])])])])
+            }
+            _ => self.expr(cx, Ty::Fun(k), 2),
+        };
+        let mut args = vec![f];
+        for _ in 0..k {
+            args.push(self.expr(cx, Ty::Int, 1));
+        }
+        vec![setg(&g, native(&format!("call{k}"), args))]
+    }
+
     pub fn stmt(&mut self, cx: &mut Ctx, depth: usize, can_declare: bool) -> Vec<C> {
+        if self.prof.host > 0 && self.rng.below(100) < self.prof.host {
+            return self.host_stmt(cx);
+        }
         if self.prof.errors > 0 && self.rng.below(100) < self.prof.errors {
             return vec![self.error_card(cx)];
         }
@@ -654,9 +700,10 @@ impl<'a> Gen<'a> {
         let mut natives = vec![];
         if self.prof.natives {
             for (n, a, b) in [("log1", 1, "log"), ("log2", 2, "log"), ("log3", 3, "log"), ("id1", 1, "id"), ("fail0", 0, "fail")] {
-                natives.push(Native { name: n.into(), arity: a, beh: b });
+                natives.push(Native { name: n.into(), arity: a, beh: b, types: vec!["value"; a] });
             }
         }
+        natives.extend(typed_registry());
         P { fns, natives, imports: vec![] }
     }
 }
